@@ -382,6 +382,82 @@ def check_case(case: dict, res: dict) -> list[tuple[str, str]]:
     return out
 
 
+def gen_chain(seed: str) -> dict:
+    """macros calling each other in a chain m1 -> m2 -> .. -> mk (k = 2..4), each expanded once, with ops before and after
+    the inner call; spread over the main file and imported files"""
+    r = random.Random(seed)
+    k = r.randint(2, 4)
+    where = [r.choice([None, "lib.exps", "sub/deep.exps"]) for _ in range(k)]
+    # a file may only call macros of files it imports: keep the chain's files in import order main -> lib -> deep
+    rank = {None: 0, "lib.exps": 1, "sub/deep.exps": 2}
+    where.sort(key=lambda f: rank[f])
+    texts: dict = {None: [], "lib.exps": [], "sub/deep.exps": []}
+    tag = 200000
+    for i in range(k):
+        pre = r.randint(0, 2)
+        post = r.randint(0, 2)
+        body = []
+        for _ in range(pre):
+            tag += 1
+            body.append(f"    op_pre({tag});")
+        if i + 1 < k:
+            body.append(f"    ~m{i + 1}();")
+        for _ in range(post):
+            tag += 1
+            body.append(f"    op_post({tag});")
+        if not body:
+            tag += 1
+            body.append(f"    op_only({tag});")
+        texts[where[i]].append(f"macro m{i}() {{\n" + "\n".join(body) + "\n}")
+    files = {}
+    used = [f for f in ("lib.exps", "sub/deep.exps") if texts[f]]
+    if texts["sub/deep.exps"]:
+        files["sub/deep.exps"] = "\n".join(texts["sub/deep.exps"]) + "\n"
+    if texts["lib.exps"]:
+        imp = 'import "./sub/deep.exps";\n' if texts["sub/deep.exps"] else ""
+        files["lib.exps"] = imp + "\n".join(texts["lib.exps"]) + "\n"
+    imps = "".join(f'import "./{f}";\n' for f in used)
+    before = r.randint(0, 2)
+    after = r.randint(0, 2)
+    main = imps + "\n".join(texts[None]) + ("\n" if texts[None] else "") + "def 0 {\n" + \
+        "".join(f"    op_before({900000 + j});\n" for j in range(before)) + "    ~m0();\n" + \
+        "".join(f"    op_after({910000 + j});\n" for j in range(after)) + ("    end;\n" if r.random() < 0.5 else "") + "}\n"
+    files["main.exps"] = main
+    return {"files": files, "k": k, "where": where}
+
+
+def check_chain(case: dict, res: dict) -> list[tuple[str, str]]:
+    """exact bounds of every return address: after every op of its expansion (nested ones included), not after the first
+    op that follows it"""
+    out = []
+    macro = {int(o): v for o, v in res["sm"]["macros"]["map"].items()}
+    offsets = sorted(op["off"] for rt in res["ops"] for op in rt)
+    k = case["k"]
+    for i in range(k):
+        names = {f"m{j}" for j in range(i, k)}
+        exp = sorted(o for o in offsets if o in macro and macro[o][1] in names)
+        own = [o for o in exp if macro[o][1] == f"m{i}"]
+        if not own:
+            continue
+        later = [o for o in offsets if o > exp[-1]]
+        for o in own:
+            ret = macro[o][5]
+            if ret is None:
+                out.append(("chain:no-return-address", f"op {o} of m{i} has no return address"))
+            elif not ret > exp[-1]:
+                out.append((f"chain:return-address-inside-expansion:depth{i}", f"op {o} of m{i}: return address {ret} does not lie after the "
+                            f"last op {exp[-1]} of the expansion {exp}"))
+            elif later and ret > later[0]:
+                out.append((f"chain:return-address-too-far:depth{i}", f"op {o} of m{i}: return address {ret} lies after the op {later[0]} "
+                            f"that follows the expansion {exp}"))
+            if macro[o][0] != case["where"][i]:
+                out.append(("chain:file", f"op {o} of m{i}: entry names file {macro[o][0]!r}, the macro is defined in {case['where'][i]!r}"))
+    for o in offsets:
+        if o not in macro and str(o) not in res["sm"]["map"] and o not in {int(x) for x in res["sm"]["map"]}:
+            out.append(("chain:no-entry", f"op {o} has no entry"))
+    return out
+
+
 def main() -> None:
     run = Run("C08", "exploration")
     run.forbid()
@@ -403,6 +479,20 @@ def main() -> None:
                 continue
             seen.add(sig)
             run.fail(sig, what, {"files": c["files"], "source_map": r["sm"], "ops": r["ops"]})
+    chains = [gen_chain(f"C08-chain-{run.seed}-{i}") for i in range(150 if q else 2000)]
+    cres = run_impl([("files:compile_files", c["files"], "main.exps", []) for c in chains])
+    for c, r in zip(chains, cres):
+        run.case(["chain", c["files"]], nontrivial=True)
+        if not r["ok"]:
+            run.count("chain-compile:" + r["err"])
+            run.fail("chain-compile:" + r["err"], f"compilation of a macro chain fails: {r['err']} {r.get('msg', '')[:100]}", {"files": c["files"]})
+            continue
+        run.count(f"chain depth {c['k']}")
+        seen = set()
+        for sig, what in check_chain(c, r):
+            if sig not in seen:
+                seen.add(sig)
+                run.fail(sig, what, {"files": c["files"], "source_map": r["sm"], "ops": r["ops"]})
     run.sample({"files": cases[0]["files"]})
     run.finish(rule="programs with a unique tag in every op-emitting construct, several statements per line, irregular indentation, "
                     "macros (local and in 0-2 imported files, nested calls); positions recorded by the generator's printer")
